@@ -30,7 +30,7 @@ body += """---------------------------------------------------------------------
 Every entry below was reported by a check as a violation on the unchanged tree,
 replayed against the real code, and judged to be a defect of qutip/qutip (the
 property's own words decide; section 6 lists the alarms that were *not*).  All but
-two (the known findings, marked in the table) were repaired by a minimal unguarded commit in /repo whose message starts with
+three (the known findings, marked in the table) were repaired by a minimal unguarded commit in /repo whose message starts with
 `fix:`; the pinned test-suite passes with them.  They are recorded in
 `known_findings.json` as `fixed: property=<id> <commit> <what failed>` — a fixed
 entry suppresses nothing: reverting the commit makes the check report the violation
